@@ -26,8 +26,9 @@ const tls = "/repo/internal/tlcodegen/test/tls/"
 var repoSets = map[string]genSet{
 	"cases":      {Name: "cases", Files: []string{tls + "cases.tl"}, Args: []string{"--tl2WhiteList=*", "--generateByteVersions=cases_bytes.,cases.", "--generateRandomCode"}},
 	"goldmaster": {Name: "goldmaster", Files: []string{tls + "goldmaster.tl", tls + "goldmaster2.tl", tls + "goldmaster3.tl"}, Args: []string{"--tl2WhiteList=*", "--generateByteVersions=ch_proxy.,ab.,memcache.", "--generateRandomCode"}},
-	"schema":     {Name: "schema", Files: []string{tls + "schema.tl"}, Args: []string{"--tl2WhiteList=*", "--generateByteVersions=ch_proxy.,ab.,memcache.", "--generateRandomCode", "--split-internal"}}, // not =*: known finding F41
+	"schema":     {Name: "schema", Files: []string{tls + "schema.tl"}, Args: []string{"--tl2WhiteList=*", "--generateByteVersions=*", "--generateRandomCode", "--split-internal"}},
 	"sink":       {Name: "sink", Files: []string{"/verif/schemas/sink.tl"}, Args: []string{"--tl2WhiteList=*", "--generateByteVersions=*", "--generateRandomCode"}},
+	"sinksplit":  {Name: "sinksplit", Files: []string{"/verif/schemas/sink.tl"}, Args: []string{"--tl2WhiteList=*", "--generateByteVersions=*", "--generateRandomCode", "--split-internal"}},
 	"f46":        {Name: "f46", Files: []string{"/verif/schemas/f46.tl"}, Args: []string{"--tl2WhiteList=*", "--generateByteVersions=*", "--generateRandomCode"}}, // only for the sentinel of known finding F46
 	"casestl2":   {Name: "casestl2", Files: []string{tls + "cases.tl2"}, Args: []string{"--tl2WhiteList=*", "--generateByteVersions=cases_bytes.", "--generateRandomCode", "--checkLengthSanity=false"}},
 	"casesnotl2": {Name: "casesnotl2", Files: []string{tls + "cases.tl"}, Args: []string{"--generateByteVersions=cases_bytes.", "--generateRandomCode"}},
@@ -63,6 +64,7 @@ import (
 	"github.com/VKCOM/tl/verifh/gch"
 	_ "github.com/VKCOM/tl/verifrun/NAME/factory"
 BYTESIMPORT
+NSIMPORTS
 	"github.com/VKCOM/tl/verifrun/NAME/meta"
 )
 
@@ -154,6 +156,19 @@ func genBuild(s genSet) (string, error) {
 		bi = "\t_ \"github.com/VKCOM/tl/verifrun/" + s.Name + "/factory_bytes\""
 	}
 	glue = strings.ReplaceAll(glue, "BYTESIMPORT", bi)
+	// an application links the per-namespace packages next to meta and factory: so does the glue
+	var ns []string
+	if es, err := os.ReadDir(outdir); err == nil {
+		for _, e := range es {
+			if !e.IsDir() || !strings.HasPrefix(e.Name(), "tl") {
+				continue
+			}
+			if gs, _ := filepath.Glob(filepath.Join(outdir, e.Name(), "*.go")); len(gs) > 0 {
+				ns = append(ns, "\t_ \"github.com/VKCOM/tl/verifrun/"+s.Name+"/"+e.Name()+"\"")
+			}
+		}
+	}
+	glue = strings.ReplaceAll(glue, "NSIMPORTS", strings.Join(ns, "\n"))
 	tdir := filepath.Join(mod, s.Name+"_t")
 	os.MkdirAll(tdir, 0o755)
 	if err := writeIfChanged(filepath.Join(tdir, "main_test.go"), []byte(glue)); err != nil {
